@@ -34,15 +34,16 @@ def bin_evaluation(method):
     return method
 
 
-def entries(edges, n):
-    """n entries spread over the bins (inside the range), deterministic."""
+def entries(edges, n, out=0):
+    """n entries, deterministic: n - out spread over the bins, out outside the range (alternately below and above)."""
     lo, hi = float(edges[0]), float(edges[-1])
-    return [lo + (hi - lo) * (k + 0.5) / n for k in range(n)]
+    m = n - out
+    return [lo + (hi - lo) * (k + 0.5) / m for k in range(m)] + [(lo - 1.5 - k) if k % 2 == 0 else (hi + 0.5 + k) for k in range(out)]
 
 
-def container(edges, n):
+def container(edges, n, out=0):
     e = [float(x) for x in edges]
-    return HistContainer(n_bins=len(e) - 1, bin_range=(e[0], e[-1]), bin_edges=e, fill_data=entries(e, n))
+    return HistContainer(n_bins=len(e) - 1, bin_range=(e[0], e[-1]), bin_edges=e, fill_data=entries(e, n, out))
 
 
 def tol(method):
@@ -87,7 +88,8 @@ class Sys:
     def __init__(self, first):
         self.method, self.density = first["method"], first["density"]
         c = [float(v) for v in first["poly"]]
-        self.fit = HistFit(container(first["edges"], first["n"]), model_function=poly, bin_evaluation=bin_evaluation(self.method),
+        self.out = first["out"]
+        self.fit = HistFit(container(first["edges"], first["n"], first["out"]), model_function=poly, bin_evaluation=bin_evaluation(self.method),
                            density=self.density)
         self.fit.set_all_parameter_values(c)
         e = [float(x) for x in first["edges"]]
@@ -102,13 +104,14 @@ class Sys:
             self.pm.parameters = c
             self.sm.parameters = smooth_pars(a["c"])
         elif a["name"] == "SetData":
-            self.fit.data = container(a["edges"], a["n"])
+            self.out = a["out"]
+            self.fit.data = container(a["edges"], a["n"], a["out"])
             e = [float(x) for x in a["edges"]]
             self.pm.rebin(e)
             self.sm.rebin(e)
         elif a["name"] == "Rebin":
             e = [float(x) for x in a["edges"]]
-            self.fit.data = container(e, int(round(self.fit._data_container.n_entries)))
+            self.fit.data = container(e, int(round(self.fit._data_container.n_entries)), self.out)
             self.pm.rebin(e)
             self.sm.rebin(e)
         elif a["name"] != "ReadModel":
